@@ -33,6 +33,9 @@ pub struct Oracle {
     seen_keys: BTreeSet<String>,
     pub notes: Vec<String>,
 
+    /// term in which a node that is currently in the Leader role entered it (C05a: a leader
+    /// that has adopted a higher term and is about to step down is not a leader of that term)
+    pub leader_since_term: BTreeMap<u32, u64>,
     // C01
     pub acted: BTreeMap<u64, BTreeSet<u32>>,
     pub leader_seen: BTreeMap<u64, BTreeSet<u32>>,
@@ -337,8 +340,15 @@ impl Oracle {
             self.last_commit.insert(v.id, v.commit);
         }
 
-        // ---- C05 (a): a leader of a later term holds every committed entry
+        // ---- C05 (a): a leader of a later term holds every committed entry. A node that was
+        //      already in the Leader role with a lower term has only adopted the higher term
+        //      (update_current_term + queued BecomeFollower): it never won that term.
         if v.role == RoleKind::Leader {
+            self.leader_since_term.entry(v.id).or_insert(v.term);
+        } else {
+            self.leader_since_term.remove(&v.id);
+        }
+        if v.role == RoleKind::Leader && self.leader_since_term.get(&v.id) == Some(&v.term) {
             let boundary = purge_boundary(v);
             for (i, c) in &self.committed {
                 if c.by_term < v.term && *i > boundary {
